@@ -57,7 +57,11 @@ func child(c *vf.Ctx) {
 		batch, _ := strconv.Atoi(c.ChildArgs[0])
 		from, _ := strconv.Atoi(c.ChildArgs[1])
 		iters, _ := strconv.Atoi(c.ChildArgs[2])
-		runStress(c, batch, from, iters, len(c.ChildArgs) > 3 && c.ChildArgs[3] == "race")
+		repeat := 1
+		if len(c.ChildArgs) > 4 {
+			repeat, _ = strconv.Atoi(c.ChildArgs[4])
+		}
+		runStress(c, batch, from, iters, len(c.ChildArgs) > 3 && c.ChildArgs[3] == "race", repeat)
 	}
 }
 
@@ -116,8 +120,12 @@ func fatalClass(l string) string {
 	return strings.Join(f, "-")
 }
 
-// bothStacksIn reports whether both access stacks of a race report contain a
-// frame of the package fragment.
+// bothStacksIn reports whether both accesses of a race report were made by
+// code of the package: walking each access stack from the innermost frame, the
+// first frame that belongs to hive.go or to the harness must belong to hive.go
+// (an access made by harness code that merely runs below a daemon frame, e.g. a
+// worker function or a recover handler, does not count), and the stack must
+// contain a frame of pkg.
 func bothStacksIn(r vf.RaceReport, pkg string) bool {
 	p := strings.TrimPrefix(r.Text, "WARNING: DATA RACE")
 	if i := strings.Index(p, "\nGoroutine "); i >= 0 {
@@ -129,7 +137,22 @@ func bothStacksIn(r vf.RaceReport, pkg string) bool {
 			continue
 		}
 		n++
-		if strings.Contains(blk, pkg) {
+		first := ""
+		for _, l := range strings.Split(blk, "\n") {
+			if !strings.HasPrefix(l, "  ") || strings.HasPrefix(l, "   ") {
+				continue
+			}
+			f := strings.TrimSpace(l)
+			if strings.HasPrefix(f, "main.") || strings.Contains(f, "verif/harness") {
+				first = "harness"
+				break
+			}
+			if strings.Contains(f, "iotaledger/hive.go/") {
+				first = "hive"
+				break
+			}
+		}
+		if first == "hive" && strings.Contains(blk, pkg) {
 			in++
 		}
 	}
@@ -170,6 +193,11 @@ func stressRun(c *vf.Ctx, batch, from, iters int, race bool, seen map[string]boo
 	args := []string{strconv.Itoa(batch), strconv.Itoa(from), strconv.Itoa(iters)}
 	if race {
 		args = append(args, "race")
+	} else {
+		args = append(args, "plain")
+	}
+	if c.Replay != "" && iters-from <= 4 {
+		args = append(args, "2000")
 	}
 	res := c.RunChild(vf.ChildOpts{Name: "stress", Args: args, Race: race, Timeout: time.Duration(c.Pick(4, 12)) * time.Minute, Env: []string{"GOMAXPROCS=8"}})
 	next := iters
@@ -228,7 +256,7 @@ func run(c *vf.Ctx) {
 		return
 	}
 	c.SetRule("one evaluation = one oracle decision on the real daemon: (a) at every quiescent point of a scripted scenario (all goroutines parked, shutdown goroutine in WaitGroup.Wait or gone) each live worker's ctx.Err() is compared with 'every worker of strictly higher order has returned' (both directions), ShutdownAndWait/Run callers that returned are checked against unreturned workers, registrations of running names / after shutdown must be refused, a BackgroundWorker call gated at daemon.bgworker.afterStoppedCheck while shutdown runs must be refused or its worker cancelled and waited for; (b) per BackgroundWorker call of the free-running stress (plain and -race): accepted workers returned before ShutdownAndWait did (logical clock), cancelled workers see no cancelled unreturned lower-order worker. Configurations come from a per-index seed (orders from a pool with ties, negatives, gaps, extremes; early finishers; re-registration; 1-4 shutdown callers; Run). distinct_nontrivial counts distinct (order multiset at shutdown, gate-release order, variant set) triples of started daemons with >= 2 distinct orders and >= 1 gate release")
-	nCfg := c.Pick(400, 20000)
+	nCfg := c.Pick(1200, 20000)
 	procs := runtime.NumCPU() / 2
 	if procs < 2 {
 		procs = 2
